@@ -18,46 +18,58 @@ theorem stepLine_dropped (o : Opts) (S : List String) (hS : S ≠ []) (s : PStat
   simp only [Bool.and_eq_true, Bool.or_eq_true, decide_eq_true_eq, Bool.not_eq_true'] at hd
   obtain ⟨hk, hc⟩ := hd
   have hne : S.isEmpty = false := by cases S <;> simp_all
+  have hkind : (classify { o with chains := S } l).kind = kindOf l := rfl
   have hskip : (classify { o with chains := S } l).skip = true := by
     simp only [classify, isSkipped, hne, hc]
     rcases hk with hk | hk <;> simp [hk]
-  have hkind : (classify { o with chains := S } l).kind = kindOf l := rfl
-  have hnm : ¬ kindOf l = .model := by rcases hk with hk | hk <;> simp [hk]
-  have h16 : ¬ l.length ≤ 16 := by omega
-  have h21 : ¬ l.length ≤ 21 := by omega
+  have hak : atomKind (classify { o with chains := S } l) = true := by
+    unfold atomKind; rcases hk with hk | hk <;> simp [hkind, hk]
+  have hnm : ((classify { o with chains := S } l).kind == Kind.model) = false := by rcases hk with hk | hk <;> simp [hkind, hk]
+  have h16 : decide (l.length ≤ 16) = false := by simp; omega
+  have h21 : decide (l.length ≤ 21) = false := by simp; omega
   have hstep : step s.st (classify { o with chains := S } l) = (s.st, false) := by
     unfold step
     rcases hk with hk | hk
     · simp [hkind, hk, hskip]
     · simp [hkind, hk]
+  have hcheck : lineCheck { o with chains := S } l = .ok () := by
+    unfold lineCheck
+    simp [hnm, hak, h16, h21]
   unfold stepLine
-  simp only [hkind, hnm, if_false, h16, h21, and_false, hstep, hskip, Bool.true_eq_false,
-    pure_bind, if_false]
+  simp [hcheck, hnm, hak, hskip, hstep, pure, Except.pure]
+
+theorem classify_chains (o : Opts) (S : List String) (l : Str) (h : isAtomLine l = true → S.contains (str (slice l 21 22)) = true) :
+    classify { o with chains := S } l = classify { o with chains := [] } l := by
+  simp only [classify, isSkipped]
+  by_cases ha : isAtomLine l = true
+  · have := h ha
+    cases S <;> simp_all
+  · unfold isAtomLine at ha
+    have : (kindOf l == Kind.atom || kindOf l == Kind.hetatm) = false := by
+      simp only [Bool.or_eq_true, decide_eq_true_eq, not_or] at ha
+      simp [ha.1, ha.2]
+    simp [this]
 
 theorem stepLine_kept (o : Opts) (S : List String) (s : PState) (l : Str)
     (hk : otherChain S l = false) (hlen : isAtomLine l = true → 21 < l.length) :
     stepLine { o with chains := S } s l = stepLine { o with chains := [] } s l := by
   unfold otherChain at hk
-  by_cases ha : isAtomLine l = true
-  · have hc : S.contains (str (slice l 21 22)) = true := by simp_all
-    have h21 : ¬ l.length ≤ 21 := by have := hlen ha; omega
-    have hcl : classify { o with chains := S } l = classify { o with chains := [] } l := by
-      simp only [classify, isSkipped, hc]
-      cases S <;> simp
-    unfold stepLine
+  have hcl : classify { o with chains := S } l = classify { o with chains := [] } l := by
+    apply classify_chains; intro ha; simp_all
+  have hcheck : lineCheck { o with chains := S } l = lineCheck { o with chains := [] } l := by
+    unfold lineCheck
     rw [hcl]
-    simp only [h21, and_false, List.isEmpty_nil, Bool.not_true, Bool.false_eq_true]
-  · have hna : ¬ (kindOf l = .atom ∨ kindOf l = .hetatm) := by
-      unfold isAtomLine at ha; simp_all
-    have hcl : classify { o with chains := S } l = classify { o with chains := [] } l := by
-      simp only [classify]
-      have : (kindOf l == Kind.atom || kindOf l == Kind.hetatm) = false := by
-        simp only [Bool.or_eq_false_iff, beq_eq_false_iff_ne]; exact ⟨fun h => hna (Or.inl h), fun h => hna (Or.inr h)⟩
-      simp [this]
-    unfold stepLine
-    rw [hcl]
-    have hkind : (classify { o with chains := [] } l).kind = kindOf l := rfl
-    simp only [hkind, hna, false_and, if_false]
+    by_cases ha : isAtomLine l = true
+    · have h21 : decide (l.length ≤ 21) = false := by have := hlen ha; simp; omega
+      simp [h21]
+    · have hak : atomKind (classify { o with chains := [] } l) = false := by
+        unfold atomKind isAtomLine at *
+        have hkind : (classify { o with chains := [] } l).kind = kindOf l := rfl
+        simp only [Bool.or_eq_true, decide_eq_true_eq, not_or] at ha
+        simp [hkind, ha.1, ha.2]
+      simp [hak]
+  unfold stepLine
+  rw [hcheck, hcl]
 
 /-- **Main theorem.** For every list of lines and every non-empty selection `S`, parsing with the
     selection gives exactly the atom records (fields, conformation names, `N+`/`C-` tags) obtained by
